@@ -37,6 +37,7 @@
 #define _GNU_SOURCE
 #include <ctype.h>
 #include <inttypes.h>
+#include <time.h>
 #include "libyang.h"
 #include "plugins_types.h"
 #include "proto.h"
@@ -606,6 +607,7 @@ main(void)
     repo = getenv("VERIF_REPO");
     if (!repo) repo = "/repo";
     snprintf(sd, sizeof sd, "%s/models", repo);
+    setenv("TZ", "UTC", 1); tzset();     /* the canonical form of date-and-time is local time (ly_time_time2str) */
     ly_log_options(LY_LOSTORE_LAST);
     if (ly_ctx_new(sd, 0, &ctx)) return 2;
 
